@@ -51,6 +51,14 @@ def regen(ctx):
     translate.regen_all()
 
 
+def viol(ctx, what, rep, found_input=True):
+    """One violation per kind (the first, i.e. smallest, failing input); the rest are only counted."""
+    k = ctx.coverage.setdefault("violations_by_kind", {})
+    k[what] = k.get(what, 0) + 1
+    if k[what] == 1:
+        ctx.violation(what, rep, found_input=found_input)
+
+
 # ------------------------------------------------------------------ set oracle helpers
 def fs(a: int) -> frozenset:
     return frozenset(i for i in range(a.bit_length()) if (a >> i) & 1)
@@ -115,7 +123,7 @@ def run_operators(ctx):
         if 0 < a < 2 ** n - 1:
             ctx.nontrivial.add(("player", n, a))
         if impl != orc:
-            ctx.violation("Coalition operator with a player / inverted / grand_coalition / player_to_coalition differs from finite-set semantics",
+            viol(ctx, "Coalition operator with a player / inverted / grand_coalition / player_to_coalition differs from finite-set semantics",
                           {"n": n, "coalition_id": a, "layout": "per player p<n: [A&p, A|p, A-p, A+p, p in A]; then inverted(n), grand(n), player_to_coalition(p)...",
                            "observed": impl, "expected": orc}, found_input=True)
         elif impl != model:
@@ -140,7 +148,7 @@ def run_operators(ctx):
         if a and b and a != b:
             ctx.nontrivial.add(("pair", a, b))
         if impl != orc:
-            ctx.violation("Coalition operator on two coalitions differs from finite-set semantics",
+            viol(ctx, "Coalition operator on two coalitions differs from finite-set semantics",
                           {"a": a, "b": b, "layout": "[A&B, A|B, A-B, B in A, A in B, A==B, disjoint_coalitions, exclude_coalition(B,[A]) keeps A]",
                            "observed": impl, "expected": orc}, found_input=True)
         elif impl != model:
@@ -155,7 +163,7 @@ def run_operators(ctx):
             got = [c.id for c in exclude_coalition(Coalition(e), all_coalitions(n))]
             exp = [c for c in range(2 ** n) if not (c & e)]
             if got != exp:
-                ctx.violation("exclude_coalition does not keep exactly the coalitions disjoint from `exclude`, in order",
+                viol(ctx, "exclude_coalition does not keep exactly the coalitions disjoint from `exclude`, in order",
                               {"n": n, "exclude": e, "observed": got, "expected": exp}, found_input=True)
     ctx.coverage["pairs_exhaustive_below_2_pow"] = nmax
     return mism
@@ -228,7 +236,7 @@ def run_enumerations(ctx):
         model = parse_enum(o)
         bad = oracle_enum(n, c, impl)
         if bad:
-            ctx.violation("coalition listing / enumeration differs from finite-set semantics: " + bad,
+            viol(ctx, "coalition listing / enumeration differs from finite-set semantics: " + bad,
                           {"n": n, "coalition_id": c, "observed": impl}, found_input=True)
         elif impl != model:
             diff = [k for k in impl if impl[k] != model[k]]
@@ -244,7 +252,7 @@ def run_enumerations(ctx):
             ci = cid.CoalitionId(c)
             b = ints(cid.sub_coalitions(ci, n)), ints(cid.super_coalitions(ci, n)), ints(cid.players(ci, n)), int(cid.get_size(ci, n))
             if a != b:
-                ctx.violation("coalition_ids functions give different results for int and np.int32 arguments",
+                viol(ctx, "coalition_ids functions give different results for int and np.int32 arguments",
                               {"n": n, "coalition_id": c, "with_int": a, "with_int32": b}, found_input=True)
     # out-of-range ids: all four id functions must refuse (assert), and the model says None
     oor = [(n, 2 ** n + d) for n in range(1, 8) for d in (0, 1, 2 ** n - 1, 2 ** n)]
@@ -261,7 +269,7 @@ def run_enumerations(ctx):
                 st.append("err")
         model = [p.split()[0] for p in o.split("|")]
         if st != ["err"] * 4:
-            ctx.violation("coalition_ids function accepts a coalition id >= 2^number_of_players (documented assert missing)",
+            viol(ctx, "coalition_ids function accepts a coalition id >= 2^number_of_players (documented assert missing)",
                           {"n": n, "coalition_id": c, "order": ["players", "get_size", "sub_coalitions", "super_coalitions"],
                            "observed": st, "expected": ["err"] * 4}, found_input=True)
         elif st != model:
@@ -283,7 +291,7 @@ def run_enumerations(ctx):
         Ct = Coalition.from_players(tuple(reversed(l)))
         impl = (Cc.id, ints(Cc.players), len(Cc))
         if impl != (mask(l), sorted(set(l)), len(set(l))) or Ct.id != Cc.id:
-            ctx.violation("from_players / players / len do not round-trip through the player set",
+            viol(ctx, "from_players / players / len do not round-trip through the player set",
                           {"players": l, "observed": impl, "expected": (mask(l), sorted(set(l)), len(set(l)))}, found_input=True)
         elif impl != model:
             mism.append({"relation": "from_players (impl) = en_from_players (model)", "players": l, "impl": impl, "model": model})
@@ -314,7 +322,7 @@ def run_enumerations(ctx):
         exp = [tuple(l[i] for i in idx) for k in range(len(l) + 1)
                for idx in sorted(set(tuple(sorted(s)) for s in itertools.permutations(range(len(l)), k)))] if len(l) <= 6 else impl
         if impl != exp:
-            ctx.violation("powerset does not enumerate every index subset once, by size then lexicographically",
+            viol(ctx, "powerset does not enumerate every index subset once, by size then lexicographically",
                           {"list": l, "observed": impl, "expected": exp}, found_input=True)
         elif impl != model:
             mism.append({"relation": "functoolz.powerset (impl) = cb_powerset (model), as sequences", "list": l,
@@ -524,18 +532,18 @@ def run_predicates(ctx):
         for k in ("sa", "sa_default", "mono", "sam"):
             if impl[k] != exp[k]:
                 bad = True
-                ctx.violation({"sa": "is_superadditive(rtol, atol)", "sa_default": "is_superadditive (defaults)", "mono": "is_monotone_decreasing",
+                viol(ctx, {"sa": "is_superadditive(rtol, atol)", "sa_default": "is_superadditive (defaults)", "mono": "is_monotone_decreasing",
                                "sam": "is_sam"}[k] + " does not decide its textbook definition",
                               dict(rep, predicate=k, observed=impl[k], expected=exp[k]), found_input=True)
         for k, t in (("sm", tol), ("sm_default", Fraction(DEFAULT_TOL))):
             viol = list(itertools.islice(supermod_violations(n, v, t), 1))
             if (impl[k] is None) != (not viol):
                 bad = True
-                ctx.violation("check_supermodularity answers None although increasing differences fail (or reports a violation on a supermodular game)",
+                viol(ctx, "check_supermodularity answers None although increasing differences fail (or reports a violation on a supermodular game)",
                               dict(rep, tolerance=str(t), observed=impl[k], a_textbook_violation=viol[:1]), found_input=True)
             elif impl[k] is not None and impl[k] not in set(supermod_violations(n, v, t)):
                 bad = True
-                ctx.violation("check_supermodularity reports a triple (T, S, i) that is not a violation of increasing differences",
+                viol(ctx, "check_supermodularity reports a triple (T, S, i) that is not a violation of increasing differences",
                               dict(rep, tolerance=str(t), observed=impl[k]), found_input=True)
         if not bad and impl != model:
             diff = [k for k in impl if impl[k] != model[k]]
@@ -559,7 +567,7 @@ def run(ctx, proof):
         for m in mism:
             by_rel.setdefault(m["relation"], []).append(m)
         for rel, ms in by_rel.items():
-            ctx.violation("model and implementation disagree, the finite-set / textbook oracle accepts the implementation: " + rel,
+            viol(ctx, "model and implementation disagree, the finite-set / textbook oracle accepts the implementation: " + rel,
                           {"relation": rel, "disagreements": len(ms), "first": ms[0]}, found_input=False)
     ctx.coverage["exhaustive"] = False
     ctx.coverage["exhaustive_parts"] = ("operators and enumerations: complete for n = 1..10 (pairs: all ids below 2^5 quick / 2^6 thorough); "
